@@ -159,6 +159,25 @@ def rule_release(prog):
             res.viol("erase#%d" % n, "%s:%s" % (f.file, t.get("ln")),
                      "override release-on-activation erases a key taken from the override scratch without the !is_modifier() "
                      "guard: a modifier the user still holds is dropped and never comes back")
+    # the keys reported by the override scratch are *output key codes*: they identify states by key code, never by
+    # input coordinate (on a remapped layer the two differ)
+    ro = blocks_calling(f, f.reachable(), [KO + "OverrideStates::removed_oscs"])
+    res.inst("anchors", removed_oscs_calls=len(ro), keycode_erases=n)
+    as_coord = []
+    for bi, si, st in f.all_rvalues():
+        rv = st["rv"]
+        if rv["k"] == "agg" and rv.get("adt") == "kanata_keyberon::layout::Event":
+            for o in rv["ops"]:
+                _, cals, _ = backward_slice(f, o)
+                if (KO + "OverrideStates::removed_oscs") in cals:
+                    as_coord.append(st.get("ln"))
+    res.oblige(not as_coord)
+    for ln in as_coord:
+        res.viol("scratch-key-used-as-coordinate", "%s:%s" % (f.file, ln),
+                 "a key code taken from the override scratch is used as the coordinate of an input event: on a layer where the key "
+                 "at that coordinate outputs something else, an unrelated held key is released")
+    if ro and n == 0 and not as_coord:
+        res.viol("anchors", f.loc, "release-on-activation no longer erases the overridden keys' states by key code")
     return res
 
 
@@ -171,6 +190,24 @@ def rule_longest(prog):
     res = RuleResult("R-OVR-LONGEST", "only a matching override can raise the longest-match size", floor=1)
     f = prog.fn(KO + "Overrides::update_keys")
     res.fn(f)
+    # "the override with the most modifiers wins": the choice among matching overrides is made by comparing
+    # modifier *counts* (length of in_mod_oscs / popcount), not some other quantity
+    cnt_cmp = 0
+    for g in [f] + prog.closures_of(f):
+        for bi, si, st in g.all_rvalues():
+            rv = st["rv"]
+            if rv["k"] == "bin" and rv["op"] in ("Lt", "Le", "Gt", "Ge"):
+                for o in (rv["a"], rv["b"]):
+                    flds, cals, _ = backward_slice(g, o)
+                    if any(fl[1] == "in_mod_oscs" for fl in flds) or any(c_.endswith("count_ones") for c_ in cals):
+                        cnt_cmp += 1
+                        break
+    res.inst("selection-compares-modifier-counts", comparisons=cnt_cmp)
+    res.oblige(cnt_cmp > 0)
+    if cnt_cmp == 0:
+        res.viol("selection-compares-modifier-counts", f.loc,
+                 "update_keys no longer compares the number of modifiers of the matching overrides (no ordering comparison depends on "
+                 "in_mod_oscs.len() or a popcount): with several matching overrides the one with the most modifiers need not win")
     n = 0
     for c in prog.closures_of(f):
         gm = blocks_calling(c, c.reachable(), [KO + "Override::get_mod_mask"])
@@ -212,7 +249,7 @@ def rule_longest(prog):
                 res.viol("counter-store@%s" % c.norm.split("key_override::")[-1], "%s:%s" % (c.file, ln),
                          "the longest-match size is raised before / without the modifier-mask test having succeeded: a longer override "
                          "that does not match shadows a shorter one that does")
-    if n == 0:
+    if n == 0 and cnt_cmp > 0:
         res.viol("anchors", f.loc, "could not find the longest-match counter update in update_keys' filter closure")
     return res
 
